@@ -377,7 +377,7 @@ def _atc_step(c):
         ob = o.observation.t
         out.append(('C04-task-finished', z3.And(n.task.task_status.t == TS('FINISHED'), k1.run.count(t) == 0,
                                                 k1.fin.has(t), z3.Select(k1.fin.vals, t.t))))
-        out.append(('C02-machine-released', z3.If(o.ingest.t, z3.And(k1.ing.count(m) == k0.ing.count(m) - 1, k1.av.count(m) == k0.av.count(m) + 1),
+        out.append(('C01-C02-machine-released', z3.If(o.ingest.t, z3.And(k1.ing.count(m) == k0.ing.count(m) - 1, k1.av.count(m) == k0.av.count(m) + 1),
                                                   z3.And(k1.occ.count(m) == k0.occ.count(m) - 1,
                                                          z3.If(k0.key(ob), k1.idl(ob, m) == k0.idl(ob, m) + 1, k1.av.count(m) == k0.av.count(m) + 1)))))
     return out
@@ -391,3 +391,60 @@ REG.contract('Cluster.allocate_task_to_cluster',
              modifies=RES + ['self._tasks.running', 'self._tasks.finished', 'self._usage_data.available', 'self._usage_data.running_tasks',
                              'self._usage_data.ingest', 'self._usage_data.finished_tasks', 'heap:Task.task_status', 'heap:Task.delay_flag'],
              props=['C01', 'C02', 'C04', 'C09'])
+
+
+# ---------------------------------------------------------------------------------------------- provision_batch_resources
+AT = z3.Function('at', I, I, I)
+
+
+def _pbr_inv(c):
+    n, o = c.n, c.o
+    k0, k1 = CV(o.self), CV(n.self)
+    nm = o.name.t
+    i = c.x['i']
+    L = n['available_resources'].val
+    seq = L.seq
+    ii = z3.ToInt(i)
+    base = lambda x: z3.If(k0.key(nm), k0.idl(nm, x), 0)
+    basen = z3.If(k0.key(nm), k0.idn(nm), 0)
+    return [
+        ('index-nonneg', i >= 0),
+        ('nothing-moved-before-the-first-iteration', z3.Implies(ii == 0, z3.And(same_list(k1.av, k0.av), same_idle(k1.idle, k0.idle)))),
+        ('size-within-the-copy', z3.Or(n['size'].t <= z3.ToReal(L.n), n['size'].t <= 0, L.n == 0)),
+        ('copy-is-the-old-available-pool', z3.And(L.cnt == k0.av.cnt, L.n == k0.av.n)),
+        ('conservation', Q([('x', I)], lambda x: k1.av.count(x) + z3.If(k1.key(nm), k1.idl(nm, x), 0) == k0.av.count(x) + base(x))),
+        ('moved-items', Q([('j', I)], lambda j: z3.Implies(z3.And(0 <= j, j < ii), z3.And(
+            k1.av.count(AT(seq, j)) == 0, k1.idl(nm, AT(seq, j)) == base(AT(seq, j)) + 1)))),
+        ('others-untouched', Q([('x', I)], lambda x: z3.Or(
+            z3.Exists([z3.Int('jw')], z3.And(0 <= z3.Int('jw'), z3.Int('jw') < ii, AT(seq, z3.Int('jw')) == x)),
+            z3.And(k1.av.count(x) == k0.av.count(x), z3.If(k1.key(nm), k1.idl(nm, x), 0) == base(x))))),
+        ('lengths', z3.And(k1.av.n == k0.av.n - ii, z3.If(k1.key(nm), k1.idn(nm), 0) == basen + ii)),
+        ('keys', Q([('ob', I)], lambda ob: z3.Implies(ob != nm, z3.And(k1.key(ob) == k0.key(ob),
+                                                                       z3.Select(k1.idle.vcnt, ob) == z3.Select(k0.idle.vcnt, ob),
+                                                                       k1.idn(ob) == k0.idn(ob))))),
+        ('key-of-this-observation', z3.If(ii > 0, k1.key(nm), k1.key(nm) == k0.key(nm))),
+        ('busy-pools-untouched', z3.And(same_list(k1.ing, k0.ing), same_list(k1.occ, k0.occ))),
+    ]
+
+
+def _pbr_ens(c):
+    k0, k1 = CV(c.o.self), CV(c.n.self)
+    nm = c.o.name.t
+    size = c.o.size.t
+    taken = z3.If(size <= 0, 0, z3.If(size <= z3.ToReal(k0.av.n), z3.ToInt(size), k0.av.n))
+    base = lambda x: z3.If(k0.key(nm), k0.idl(nm, x), 0)
+    return [('C09-draws-only-from-the-available-pool', Q([('x', I)], lambda x: z3.And(
+        k1.av.count(x) + z3.If(k1.key(nm), k1.idl(nm, x), 0) == k0.av.count(x) + base(x), k1.av.count(x) <= k0.av.count(x)))),
+            ('C09-takes-min-of-size-and-free', z3.And(k1.av.n == k0.av.n - taken)),
+            ('C09-other-reservations-untouched', Q([('ob', I)], lambda ob: z3.Implies(ob != nm, z3.And(
+                k1.key(ob) == k0.key(ob), z3.Select(k1.idle.vcnt, ob) == z3.Select(k0.idle.vcnt, ob))))),
+            ('busy-pools-untouched', z3.And(same_list(k1.ing, k0.ing), same_list(k1.occ, k0.occ))),
+            ('counts-one-more-provision', k1.npo.t == k0.npo.t + 1), ('returns-true', c.result.val is True)]
+
+
+REG.contract('Cluster.provision_batch_resources', params={'size': 'int', 'name': 'str'}, fix={'c': 'default'},
+             ensures=_pbr_ens, raises={'IndexError': dict(when=lambda c: z3.And(c.o.size.t > 0, CV(c.o.self).av.n == 0))},
+             modifies=['self._resources.available', 'self._resources.idle', 'self.num_provisioned_obs'],
+             props=['C02', 'C09'])
+REG.loop('Cluster.provision_batch_resources', 0, inv=_pbr_inv, modifies_locals=['m'],
+         modifies=['self._resources.available', 'self._resources.idle'], props=['C02', 'C09'])
